@@ -210,6 +210,54 @@ def check(run):
                           f"with the same arguments shares that array, so an in-place edit of one changes the others",
                           key=key_of("C15-R6", m.name, name, fn))
     run.instance("R6", "trimesh/**", f"memoised functions handing out mutable results: {n_memo}", n_memo == 0)
+    # ------------------------------------------------------------------ R7 parameter reads hand out the stored (tracked) array
+    run.rule("R7", "reading an array parameter of a primitive returns the stored TrackedArray itself (subclass-preserving conversion): an in-place edit through it marks the "
+                   "parameter changed, so the lazily built mesh is regenerated")
+    from ..provenance import Prov
+    cl = ix.func("trimesh.util:convert_like")
+    pcl = Prov(ix, cl)
+    arr_rets = []
+    for r in ast.walk(cl.node):
+        if isinstance(r, ast.Return) and r.value is not None and pcl.cfg.nodes_of.get(id(r)):
+            g = pcl.guards(r)
+            if any("numpy.ndarray" in x and "isinstance(P_like" in x for x in g):
+                arr_rets.append(pcl.canon(r.value, r, strip=False))
+    ok = bool(arr_rets) and all(t.startswith("numpy.asanyarray(P_item") for t in arr_rets)
+    run.instance("R7", cl.where, f"util.convert_like (array branch) returns {arr_rets}", ok)
+    if not ok:
+        run.violation("R7", cl.where, f"util.convert_like converts array parameters with {arr_rets}: anything but np.asanyarray hands out a plain window on the stored TrackedArray, "
+                                      f"so `prim.primitive.extents[0] = x` changes the parameter without dirtying its hash and the mesh stays that of the old parameters",
+                      key=key_of("C15-R7", "convert_like"))
+    ga = ix.func("trimesh.primitives:PrimitiveAttributes.__getattr__")
+    t = ast.unparse(ga.node)
+    ok = "util.convert_like(self._data[key], self._defaults[key])" in t
+    run.instance("R7", ga.where, "PrimitiveAttributes.__getattr__ reads parameters through util.convert_like(self._data[key], default)", ok)
+    if not ok:
+        run.instance("R7", ga.where, "parameter read path changed - NOT decided", True, nontrivial=False)
+        run.assume("PrimitiveAttributes.__getattr__ no longer reads through util.convert_like: R7 not decided")
+    # ------------------------------------------------------------------ R8 rings of a polygon are treated alike before triangulation
+    run.rule("R8", "triangulate_polygon (earcut): the exterior ring and every interior ring are passed with the same point convention (the same expression applied to "
+                   "`polygon.exterior` and to each interior), because ring offsets are cumulative lengths")
+    tp = ix.func("trimesh.creation:triangulate_polygon")
+    ext = inter = None
+    for st in ast.walk(tp.node):
+        if isinstance(st, ast.Assign) and ast.unparse(st.targets[0]) == "vertices" and isinstance(st.value, ast.List) and len(st.value.elts) == 1 \
+                and "polygon.exterior" in ast.unparse(st.value):
+            ext = ast.unparse(st.value.elts[0])
+        if isinstance(st, ast.Expr) and isinstance(st.value, ast.Call) and ast.unparse(st.value.func) == "vertices.extend" and st.value.args \
+                and isinstance(st.value.args[0], ast.GeneratorExp) and "polygon.interiors" in ast.unparse(st.value.args[0]):
+            ge = st.value.args[0]
+            var = ge.generators[0].target.id if isinstance(ge.generators[0].target, ast.Name) else None
+            inter = (ast.unparse(ge.elt), var)
+    if ext is None or inter is None:
+        run.instance("R8", tp.where, "earcut ring assembly not in the recognised form - NOT decided", True, nontrivial=False)
+        run.assume("triangulate_polygon earcut ring assembly has an unrecognised form")
+    else:
+        same = ext.replace("polygon.exterior", "RING") == inter[0].replace(inter[1], "RING") if inter[1] else False
+        run.instance("R8", tp.where, f"exterior: `{ext}`; interiors: `{inter[0]}`", same)
+        if not same:
+            run.violation("R8", tp.where, f"triangulate_polygon (earcut) prepares the exterior ring as `{ext}` but each interior as `{inter[0]}`: the rings no longer follow one "
+                                          f"convention, so ring offsets / returned vertex indices are off for polygons with holes", key=key_of("C15-R8", "rings"))
     return {
         "explanation": "Per primitive class: the defaults table, the constructor's forwarding dict and the parameters read by _create_mesh "
         "(effect analysis through PrimitiveAttributes.__getattr__ into the shared DataStore) must coincide; lazy getters use the "
